@@ -10,7 +10,10 @@ Rich == {VM("a" :> VL(<<VM("b" :> VL(<<Rec("y", "1"), VM("a" :> VS("x"))>>)), VM
          VM(("a" :> VM("b" :> VL(<<VM("a" :> VS("y")), VM("a" :> VS("x")), VM(("a" :> VS("x")) @@ ("b" :> VB("true")))>>))) @@ ("b" :> VL(<<VM("a" :> VS("x")), VS("x"), VM("a" :> VS("y"))>>))),
          VM("a" :> VL(<<VL(<<VM("a" :> VS("y")), VM("a" :> VS("x"))>>), VM("a" :> VL(<<VS("y"), VS("x"), VS("x")>>))>>)),
          VM(("-x" :> VS("y")) @@ ("#text" :> VS("x")) @@ ("a" :> VL(<<VM(("-x" :> VS("y")) @@ ("#text" :> VS("t"))), VM(("-x" :> VS("x")) @@ ("#text" :> VS("t")))>>)))}
-SpecRich == m \in Rich /\ b1 = EmptyMap /\ b2 = EmptyMap /\ [][UNCHANGED genvars]_genvars
+\* a sequence-codec Map whose sequence numbers are float64 (what a JSON round trip of a MapSeq gives)
+SeqLeaf(i, t) == VM(("#seq" :> VF(i)) @@ ("#text" :> VS(t)))
+RichSeq == VM("a" :> VM(("#seq" :> VF("0")) @@ ("#attr" :> VM("x" :> SeqLeaf("0", "1"))) @@ ("b" :> VL(<<SeqLeaf("0", "x"), SeqLeaf("2", "y")>>)) @@ ("c" :> SeqLeaf("1", "z"))))
+SpecRich == m \in Rich \cup {RichSeq} /\ b1 = EmptyMap /\ b2 = EmptyMap /\ [][UNCHANGED genvars]_genvars
 cScalars == {VS("x"), VB("true"), VF("1"), VNil}
 cConts == {EmptyMap, EmptyList}
 =============================================================================
